@@ -507,6 +507,57 @@ def r8_template_ids_are_anchors(ctx, rep):
     c09.r8_anchor_targets_exist(ctx, rep)
 
 
+def r9_source_copies_cover_file_pages(ctx, rep):
+    """every file that has a file page carries a "Source File" link to its copy under src/: the copies are made for the same
+    collection of files the pages are made for (sibling agreement between Documentation.__init__ and Documentation.writeout)"""
+    py = ctx.py
+    from . import c09
+    subl = c09.property_sublists(py, "Project")
+
+    def bases(attr: str) -> Set[str]:
+        return set(subl.get(attr, {attr}))
+    init = py.func("Documentation.__init__")
+    paged = {t.elts[0].attr for t in ast.walk(init) if isinstance(t, ast.Tuple) and len(t.elts) == 2 and isinstance(t.elts[0], ast.Attribute)
+             and isinstance(t.elts[1], ast.Name) and t.elts[1].id == "FilePage"}
+    paged |= {lp.iter.attr for lp in ast.walk(init) if isinstance(lp, ast.For) and isinstance(lp.iter, ast.Attribute)
+              and any(call_name(c) == "FilePage" for c in py.walk_calls(lp))}
+    # a table keyed by the name of the project list: {"files": FilePage, ...} / table["allfiles"] = FilePage
+    for n in ast.walk(init):
+        if isinstance(n, ast.Dict):
+            paged |= {k.value for k, v in zip(n.keys, n.values) if isinstance(k, ast.Constant) and isinstance(k.value, str)
+                      and isinstance(v, ast.Name) and v.id == "FilePage"}
+        if isinstance(n, ast.Assign) and isinstance(n.value, ast.Name) and n.value.id == "FilePage":
+            paged |= {t.slice.value for t in n.targets if isinstance(t, ast.Subscript) and isinstance(t.slice, ast.Constant)
+                      and isinstance(t.slice.value, str)}
+        if isinstance(n, ast.Call) and call_name(n) == "dict":
+            paged |= {k.arg for k in n.keywords if k.arg and isinstance(k.value, ast.Name) and k.value.id == "FilePage"}
+    if not paged:
+        raise AnalysisError("Documentation.__init__: the collection FilePage objects are made from was not found")
+    wo = py.func("Documentation.writeout")
+    loops = [lp for lp in ast.walk(wo) if isinstance(lp, ast.For) and any(
+        call_name(c).split(".")[-1] in ("copy", "copy2", "copyfile") and len(c.args) >= 2 and
+        any(isinstance(k, ast.Constant) and k.value == "src" for k in ast.walk(c.args[1])) for c in py.walk_calls(lp))]
+    if not loops:
+        raise AnalysisError("Documentation.writeout: the loop copying source files into src/ was not found")
+    need = set().union(*[bases(a) for a in paged])
+    for lp in loops:
+        its = [a.attr for x in [lp.iter] + astq.expand_locals(lp.iter, wo) for a in ast.walk(x) if isinstance(a, ast.Attribute)
+               and ast.unparse(a.value) in ("self.project", "project")]
+        have = set().union(*[bases(a) for a in its]) if its else set()
+        ok = need <= have
+        rep.ob("source copies are made for every file that has a file page", ok,
+               f"pages for project.{sorted(paged)} ({sorted(need)}), copies for {sorted(have)}" if ok else
+               f"file pages are made for {sorted(need)} but only {sorted(have)} are copied to src/: the \"Source File\" link on the page "
+               f"of a file from {sorted(need - have)} points at a copy that is never written", py.nloc(lp))
+
+
+def r10_paged_entities_are_gathered(ctx, rep):
+    """an entity whose URL names a page of its own has that page written: it is gathered into the project list the pages are made
+    from (shared with C09.R7)"""
+    from . import c09
+    c09.r7_pageable_entities_get_pages(ctx, rep)
+
+
 RULES = [
     RuleSpec("C10.R5", r5_no_transformation_after_uniqueness, "no lossy transformation after the identifier was made unique", floor=2),
     RuleSpec("C10.R1", r1_counter_key, "collision key at least as coarse as the stem; injective symbol table", floor=2),
@@ -516,4 +567,6 @@ RULES = [
     RuleSpec("C10.R7", r7_pages_do_not_merge, "static pages with dotted names do not share an output file (shared with C17.R8)", floor=1),
     RuleSpec("C10.R6", r6_ident_not_a_key, "ident is not used alone as an identity key", floor=1),
     RuleSpec("C10.R8", r8_template_ids_are_anchors, "element ids are the unique anchors the links use (shared with C09.R2/R8)", floor=20),
+    RuleSpec("C10.R9", r9_source_copies_cover_file_pages, "source copies are made for every file that has a file page", floor=1),
+    RuleSpec("C10.R10", r10_paged_entities_are_gathered, "entities with a page URL are gathered into a paged list (shared with C09.R7)", floor=5),
 ]
